@@ -230,7 +230,7 @@ class Module:
         # into their call sites, in memory only (see sa/inline.py)
         from . import dispatch, inline, relocate
         # dispatch tables the reference tree does not know are expanded back into conditional chains (see sa/dispatch.py)
-        self.expanded = dispatch.expand(self.tree, name) + dispatch.untuple_records(self.tree, name) + dispatch.inline_new_constants(self.tree, name)
+        self.expanded = dispatch.expand(self.tree, name) + dispatch.untuple_records(self.tree, name) + dispatch.inline_new_constants(self.tree, name) + dispatch.anyall_to_loops(self.tree, name)
         # functions the reference tree knows under another name / nesting are put back first (see sa/relocate.py)
         self.relocated = relocate.restore(self.tree, name)
         self.inlined = inline.inline_new_helpers(self.tree, name)
